@@ -325,3 +325,18 @@ func RunReplay(h func()) (failed []string, panicked any) {
 	}()
 	return Failures, panicked
 }
+
+// ---- scheduler API (go=sched harnesses; no-ops natively) ---------------------
+
+// Yield is a preemption opportunity for the symbolic scheduler.
+func Yield() {}
+
+// WaitIdle parks the caller until no other goroutine can run and returns the
+// number of other goroutines still alive (blocked).
+func WaitIdle() int { return 0 }
+
+// Goroutines returns the number of other live goroutines.
+func Goroutines() int { return 0 }
+
+// Blocked describes what the other live goroutines wait for.
+func Blocked() string { return "" }
